@@ -586,6 +586,8 @@ class _SibInterp(FinamInterp):
             return Sym("rev", c)
         if isinstance(c, Sym) and isinstance(k, Sym) and k.op == "slice":
             return Sym("sl", c, k)
+        if isinstance(c, Sym) and c.op in ("ax", "cax", "rev", "sl") and isinstance(k, int) and not isinstance(k, bool):
+            return Sym("el", c, k)  # a single node / cell coordinate
         return super().sym_item(c, k, node)
 
     def builtin(self, name, args, kwargs, node):
